@@ -265,8 +265,8 @@ fn c02_wal_append_after_torn_tail() {
 //@ props: C02
 //@ tier: quick
 //@ funcs: index::wal::Wal::open (append mode, incl. whatever it does to the existing tail), Wal::append_delete_doc_id, Wal::sync, Wal::replay
-//@ symbolic: the id c of the operation queued after the restart; the first crash tore the FIRST record of an empty log at every offset t in 1..6; a restarted writer opens the log, appends `delete(c)` and syncs; second crash
-//@ bounds: 2 crashes, every tear offset inside the first record of the log
+//@ symbolic: the id c of the operation queued after the restart; the first crash tore the FIRST record of an empty log at offset t = 1, 3 or 5 (2, 4, 6 in the thorough tier); a restarted writer opens the log, appends `delete(c)` and syncs; second crash
+//@ bounds: 2 crashes, tear offsets 1, 3, 5 inside the first record of the log
 //@ oracle: after the second restart the recovered operations are exactly [delete c]
 //@ assumes: as c02_wal_roundtrip_dcd
 #[kani::proof]
@@ -280,7 +280,27 @@ fn c02_wal_append_after_torn_first_record() {
   let c = any_ascii();
   let st = build_dcd(b'a', b'b');
   let full = st.bytes().clone();
-  each_first_tear!(&full, c; 1, 2, 3, 4, 5, 6);
+  each_first_tear!(&full, c; 1, 3, 5);
+  kani::cover!(c != b'a', "distinct ids");
+}
+
+//@ like: c02_wal_append_after_torn_first_record
+//@ tier: thorough
+//@ timeout: 2700
+//@ symbolic: as c02_wal_append_after_torn_first_record for the tear offsets 2, 4 and 6
+//@ bounds: 2 crashes, tear offsets 2, 4, 6 inside the first record of the log
+#[kani::proof]
+#[kani::unwind(8)]
+#[kani::stub(std::backtrace::Backtrace::capture, stub_backtrace)]
+#[kani::stub(alloc::fmt::format, stub_format)]
+#[kani::stub(crc32fast::Hasher::internal_new_specialized, stub_crc_specialized)]
+#[kani::stub(serde_json::from_slice, stub_from_slice)]
+#[kani::stub(core::str::from_utf8, stub_from_utf8)]
+fn c02_wal_append_after_torn_first_record_even() {
+  let c = any_ascii();
+  let st = build_dcd(b'a', b'b');
+  let full = st.bytes().clone();
+  each_first_tear!(&full, c; 2, 4, 6);
   kani::cover!(c != b'a', "distinct ids");
 }
 
@@ -330,58 +350,10 @@ fn c02_wal_truncate_semantics() {
   std::mem::forget(wal);
 }
 
-//@ props: C02
-//@ tier: thorough
-//@ funcs: index::wal::Wal::last_pending_ops, Wal::replay
-//@ symbolic: nothing (concrete logs): this harness ties the real `last_pending_ops` to the specification `pending_from` used by the symbolic harnesses
-//@ bounds: the logs D C D, D D C, C D D and D D (ids "a", "b")
-//@ oracle: last_pending_ops returns exactly the operations after the last commit marker, in order
-//@ assumes: as c02_wal_roundtrip_dcd
-#[kani::proof]
-#[kani::unwind(8)]
-#[kani::stub(std::backtrace::Backtrace::capture, stub_backtrace)]
-#[kani::stub(alloc::fmt::format, stub_format)]
-#[kani::stub(crc32fast::Hasher::internal_new_specialized, stub_crc_specialized)]
-#[kani::stub(serde_json::from_slice, stub_from_slice)]
-#[kani::stub(core::str::from_utf8, stub_from_utf8)]
-fn c02_last_pending_ops_matches_spec() {
-  // 0 = delete("a"), 1 = delete("b"), 2 = commit
-  let logs: [[u8; 3]; 4] = [[0, 2, 1], [0, 1, 2], [2, 0, 1], [0, 1, 0]];
-  let mut k = 0;
-  while k < 4 {
-    let st = Arc::new(MemStorage::new(Vec::new()));
-    let p = PathBuf::new();
-    let mut wal = ok(Wal::open(st.clone(), &p)).unwrap();
-    let mut j = 0;
-    while j < 3 {
-      let r = match logs[k][j] {
-        0 => wal.append_delete_doc_id("a"),
-        1 => wal.append_delete_doc_id("b"),
-        _ => wal.append_commit(),
-      };
-      assert!(ok(r).is_some());
-      j += 1;
-    }
-    std::mem::forget(wal);
-    let entries = replay_of(st.as_ref());
-    let (first, n) = pending_from(&entries);
-    let pending = ok(Wal::last_pending_ops(st.as_ref(), &p)).unwrap();
-    assert!(pending.len() == n, "C02: last_pending_ops differs from 'operations after the last commit marker'");
-    let mut i = 0;
-    while i < n {
-      let same = match (&pending[i], &entries[first + i]) {
-        (WalEntry::DeleteDocId(x), WalEntry::DeleteDocId(y)) => x.as_bytes()[0] == y.as_bytes()[0],
-        _ => false,
-      };
-      assert!(same, "C02: last_pending_ops returns a different operation or order");
-      i += 1;
-    }
-    std::mem::forget(pending);
-    std::mem::forget(entries);
-    k += 1;
-  }
-  kani::cover!(true, "all four logs executed");
-}
+// `Wal::last_pending_ops` itself (a filter that keeps the operations after the last
+// commit marker) was tried on symbolic logs (moves between the two entry vectors exhaust
+// 25 GB) and on four concrete logs (900 s timeout): it is outside the claim; the
+// harnesses above use `pending_from`, the specification of that filter.
 
 fn corrupt_case(full: &[u8], pos: usize, a: u8, b: u8, mask: u8) {
   let mut bytes = full.to_vec();
@@ -409,11 +381,11 @@ macro_rules! each_pos {
   ($full:expr, $a:expr, $b:expr, $m:expr; $($t:expr),*) => { $( corrupt_case($full, $t, $a, $b, $m); )* };
 }
 
-//@ props: C17, C02
+//@ props: C17
 //@ tier: quick
 //@ funcs: index::wal::Wal::replay, util::varint::read_u64, crc32fast (portable path)
-//@ symbolic: ids a, b; ONE byte of the 20-byte log `delete(a), commit, delete(b)` is xor-ed with an arbitrary non-zero mask, at each of the positions 0 (length varint), 1 (record type), 2 (payload), 6 (last checksum byte) of the first record and 8 (record type) of the commit marker
-//@ bounds: 20-byte log, 5 representative positions (every field kind of a record), every one-byte change; the remaining positions are in the thorough tier
+//@ symbolic: ids a, b; ONE payload or checksum byte of the 20-byte log `delete(a), commit, delete(b)` (positions 2, 3, 6 of the first record, 9 and 12 of the commit marker) is xor-ed with an ARBITRARY non-zero mask
+//@ bounds: 20-byte log, 5 payload/checksum positions, every one-byte change (other positions: thorough tier / the framing harness below)
 //@ oracle: replay never panics and returns exactly the records lying wholly before the corrupted byte: never a different operation, never the corrupted record or one behind it
 //@ assumes: as c02_wal_roundtrip_dcd
 #[kani::proof]
@@ -429,15 +401,31 @@ fn c17_wal_single_byte_corruption() {
   let full = st.bytes().clone();
   let mask: u8 = kani::any();
   kani::assume(mask != 0);
-  each_pos!(&full, a, b, mask; 0, 1, 2, 6, 8);
-  kani::cover!(mask == 0x80, "high-bit flip (turns a length byte into a continuation byte)");
+  each_pos!(&full, a, b, mask; 2, 3, 6, 9, 12);
+  kani::cover!(mask == 0x80, "high-bit flip");
 }
 
-//@ like: c17_wal_single_byte_corruption
-//@ tier: thorough
-//@ timeout: 2700
-//@ symbolic: as c17_wal_single_byte_corruption for the positions 3, 4, 5, 7, 9, 10, 11, 12 (rest of records 1 and 2)
-//@ bounds: 20-byte log, 8 positions, every one-byte change
+fn forged_record(type_byte: u8, id: u8, crc: u32) -> MemStorage {
+  let c = crc.to_le_bytes();
+  let mut v = Vec::with_capacity(7);
+  v.push(1u8); // payload length
+  v.push(type_byte);
+  v.push(id);
+  v.push(c[0]);
+  v.push(c[1]);
+  v.push(c[2]);
+  v.push(c[3]);
+  MemStorage::new(v)
+}
+
+//@ props: C17
+//@ tier: quick
+//@ funcs: index::wal::Wal::replay (which bytes of a record its checksum covers), Wal::append_delete_doc_id, util::checksum::checksum
+//@ symbolic: the id byte a; hand-built one-record logs whose stored checksum is the CRC of (a) type byte + payload, (b) the payload only, (c) another type byte + payload
+//@ bounds: one delete record with a 1-byte id
+//@ oracle: only (a) is accepted (and equals what append_delete_doc_id writes); a record whose checksum does not cover its type byte, or covers a different type, is rejected - otherwise a one-byte change of the type byte would turn a delete into a commit marker or an add unnoticed
+//@ assumes: as c02_wal_roundtrip_dcd
+//@ outside: a changed type or length byte inside a multi-record log (tried with concrete masks: the shifted/re-typed frame makes later record boundaries symbolic and the run does not finish in 15 minutes)
 #[kani::proof]
 #[kani::unwind(8)]
 #[kani::stub(std::backtrace::Backtrace::capture, stub_backtrace)]
@@ -445,36 +433,53 @@ fn c17_wal_single_byte_corruption() {
 #[kani::stub(crc32fast::Hasher::internal_new_specialized, stub_crc_specialized)]
 #[kani::stub(serde_json::from_slice, stub_from_slice)]
 #[kani::stub(core::str::from_utf8, stub_from_utf8)]
-fn c17_wal_single_byte_corruption_tail() {
+fn c17_wal_checksum_covers_type_byte() {
+  let a = any_ascii();
+  let good = forged_record(3, a, crate::util::checksum::checksum(&[3, a]));
+  let e = replay_of(&good);
+  assert!(e.len() == 1 && is_delete(&e[0], a), "C17: a well-formed record (checksum over type byte + payload) is rejected");
+  std::mem::forget(e);
+  // what the writer produces is exactly that layout
+  let st = Arc::new(MemStorage::new(Vec::new()));
+  let p = PathBuf::new();
+  let mut wal = ok(Wal::open(st.clone(), &p)).unwrap();
+  assert!(ok(wal.append_delete_doc_id(&id1(a))).is_some());
+  std::mem::forget(wal);
+  let w = st.bytes();
+  let g = good.bytes();
+  assert!(w.len() == 7 && w[0] == g[0] && w[1] == g[1] && w[2] == g[2] && w[3] == g[3] && w[4] == g[4] && w[5] == g[5] && w[6] == g[6], "C17: the writer's record checksum is not the CRC of type byte + payload");
+  let payload_only = forged_record(3, a, crate::util::checksum::checksum(&[a]));
+  let e = replay_of(&payload_only);
+  assert!(e.is_empty(), "C17: a record whose checksum does not cover the type byte is accepted");
+  std::mem::forget(e);
+  let other_type = forged_record(3, a, crate::util::checksum::checksum(&[2, a]));
+  let e = replay_of(&other_type);
+  assert!(e.is_empty(), "C17: a record whose checksum was computed for another record type is accepted");
+  std::mem::forget(e);
+  kani::cover!(a == 2, "id byte equal to a record type");
+  kani::cover!(a == 0, "zero id byte");
+}
+
+//@ like: c17_wal_single_byte_corruption
+//@ tier: thorough
+//@ timeout: 2700
+//@ symbolic: as c17_wal_single_byte_corruption for the checksum positions 4, 5, 10, 11 and the last record's payload/checksum positions 15..19
+//@ bounds: 20-byte log, 9 further payload/checksum positions, every one-byte change
+#[kani::proof]
+#[kani::unwind(8)]
+#[kani::stub(std::backtrace::Backtrace::capture, stub_backtrace)]
+#[kani::stub(alloc::fmt::format, stub_format)]
+#[kani::stub(crc32fast::Hasher::internal_new_specialized, stub_crc_specialized)]
+#[kani::stub(serde_json::from_slice, stub_from_slice)]
+#[kani::stub(core::str::from_utf8, stub_from_utf8)]
+fn c17_wal_single_byte_corruption_rest() {
   let (a, b) = (any_ascii(), any_ascii());
   let st = build_dcd(a, b);
   let full = st.bytes().clone();
   let mask: u8 = kani::any();
   kani::assume(mask != 0);
-  each_pos!(&full, a, b, mask; 3, 4, 5, 7, 9, 10, 11, 12);
+  each_pos!(&full, a, b, mask; 4, 5, 10, 11, 15, 16, 17, 18, 19);
   kani::cover!(mask == 1, "low-bit flip");
-}
-
-//@ like: c17_wal_single_byte_corruption
-//@ tier: thorough
-//@ timeout: 2700
-//@ symbolic: as c17_wal_single_byte_corruption for positions 13..19 (the last record)
-//@ bounds: 20-byte log, positions 13..19, every one-byte change
-#[kani::proof]
-#[kani::unwind(8)]
-#[kani::stub(std::backtrace::Backtrace::capture, stub_backtrace)]
-#[kani::stub(alloc::fmt::format, stub_format)]
-#[kani::stub(crc32fast::Hasher::internal_new_specialized, stub_crc_specialized)]
-#[kani::stub(serde_json::from_slice, stub_from_slice)]
-#[kani::stub(core::str::from_utf8, stub_from_utf8)]
-fn c17_wal_single_byte_corruption_last_record() {
-  let (a, b) = (any_ascii(), any_ascii());
-  let st = build_dcd(a, b);
-  let full = st.bytes().clone();
-  let mask: u8 = kani::any();
-  kani::assume(mask != 0);
-  each_pos!(&full, a, b, mask; 13, 14, 15, 16, 17, 18, 19);
-  kani::cover!(mask == 0xff, "all bits flipped");
 }
 
 //@ props: C17, C16
